@@ -1,4 +1,5 @@
-import Mastverif.Model.Diff
+import Mastverif.Lemmas.DiffLinks
+import Mastverif.Lemmas.History
 /-!
 # C15 — diff cost (property theorems, partial)
 
@@ -10,8 +11,13 @@ with the names the Go code passes to `Persist.Load`: family `diffcost`):
   drops both without loading anything — the mechanism by which common subtrees are skipped.
 NOT provable, because false of the current code: the bound `2·D + 2` on distinct reads (see
 DESIGN.md §4 and known_findings.txt: a link facing an entry is opened, which walks down the
-spine of a common subtree).  The check reports that as KNOWN-FINDING only when the reads are
-exactly those of this model.
+spine of a common subtree).  `C15_bound_2D_plus_2_fails_in_the_model` is the negation with a
+concrete witness, checked by the kernel: the two versions are produced by the model's own
+Insert from the empty tree (the history of findings/C15-spine.json: 32 keys at branch factor 2,
+then one more key of the top layer to the left of an unchanged subtree) — D = 4 nodes belong to
+exactly one version (bound 10), the literal traversal reads 12 distinct nodes.  The same history
+is replayed on the implementation by the `diffcost` family on every run.
+The check reports an excess as KNOWN-FINDING only when the reads are exactly those of this model.
 -/
 namespace Mast.Diff
 open T
@@ -42,6 +48,50 @@ theorem C15_same_version_reads_nothing (t : T) (fuel : Nat) :
 example : rootItems true (cons true (cons true nil 2 0 (last true nil)) 3 0 (last true nil)) ≠ [] := by
   simp [rootItems]
 
+/-! ## the stated bound fails: a witness reached through the API -/
+
+/-- names for the witness: an injective serialisation of the node (keys, shape) -/
+def wName : T → List UInt8
+  | nil => [0]
+  | last _ c => 1 :: wName c
+  | cons _ c k _ r =>
+      2 :: wName c ++ [(k / 16777216).toUInt8, (k / 65536).toUInt8, (k / 256).toUInt8, k.toUInt8] ++ wName r
+
+/-- the layer of the harness's user key type: the low byte of the key -/
+def wLayer (k : Nat) : Nat := k % 256
+
+def wEnc : Enc := { keyB := fun _ => [], valB := fun _ => [], node := fun _ => [], hash := fun b => b }
+
+/-- the history of findings/C15-spine.json: 32 inserts at branch factor 2 (height 4) … -/
+def wHistory : List Tree.Op :=
+  [.ins 51200256 1, .ins 51201024 1, .ins 51203072 1, .ins 51203840 1, .ins 51204352 1, .ins 51202560 1,
+   .ins 51206144 1, .ins 51207168 1, .ins 51206656 1, .ins 51205632 1, .ins 51201536 1, .ins 51204864 1,
+   .ins 51205888 1, .ins 51204096 1, .ins 51202048 1, .ins 51205376 1, .ins 51206912 1, .ins 51201280 1,
+   .ins 51200768 1, .ins 51200000 1, .ins 51204608 1, .ins 51201792 1, .ins 281601 1, .ins 51200512 1,
+   .ins 51203328 1, .ins 358404 1, .ins 51202816 1, .ins 332803 1, .ins 51206400 1, .ins 51203584 1,
+   .ins 256000 1, .ins 25600005 1]
+
+def wOldTree : Tree := Tree.execT wLayer wEnc (Tree.empty 2) wHistory
+/-- … and one more key of the top layer, to the left of an unchanged subtree (height 5) -/
+def wNewTree : Tree := Tree.execT wLayer wEnc wOldTree [.ins 2565 1]
+def wOld : T := persistAll wOldTree.root
+def wNew : T := persistAll wNewTree.root
+
+/-- nodes that belong to exactly one of the two versions -/
+def symDiff (a b : List (List UInt8)) : List (List UInt8) :=
+  (a.filter fun n => !b.contains n) ++ (b.filter fun n => !a.contains n)
+
+set_option maxRecDepth 200000 in
+/-- **`2·D + 2` is false of the traversal** on two versions produced by histories from the empty
+    tree: D = 4 nodes belong to exactly one version, yet 12 distinct nodes are read -/
+theorem C15_bound_2D_plus_2_fails_in_the_model :
+    let loads := (run wLayer wName 200 (init (some (true, wOld)) true wNew)).2.eraseDups
+    let D := (symDiff ((versionNodes true wOld).map wName) ((versionNodes true wNew).map wName)).length
+    D = 4 ∧ loads.length = 12 ∧ loads.length > 2 * D + 2 ∧
+    wOldTree.size = 32 ∧ wOldTree.height = 4 ∧ wNewTree.size = 33 ∧ wNewTree.height = 5 := by
+  decide
+
 end Mast.Diff
+#print axioms Mast.Diff.C15_bound_2D_plus_2_fails_in_the_model
 #print axioms Mast.Diff.C15_equal_links_skipped
 #print axioms Mast.Diff.C15_same_version_reads_nothing
